@@ -314,6 +314,17 @@ impl<'tcx> Cx<'tcx> {
                 }
             }
         }
+        {
+            // transparent scalar wrappers (bitflags structs etc.): export the underlying scalar bits
+            if let ty::Adt(..) = ty.kind() {
+                if let Ok(val) = c.const_.eval(tcx, env, c.span) {
+                    if let Some(si) = val.try_to_scalar_int() {
+                        let bits = si.to_bits(si.size());
+                        parts.push(format!("\"bits\":{}", q(&bits.to_string())));
+                    }
+                }
+            }
+        }
         if parts.len() == 1 {
             parts.push(format!("\"dbg\":{}", q(&format!("{:?}", c.const_))));
         }
